@@ -823,10 +823,14 @@ class LTLayoutContainer(LTContainer[LTComponent]):
         distances to other objects & groups are added to the process queue.
 
         For performance reason, pair-wise distances and object pair info are
-        maintained in a heap of (idx, dist, id(obj1), id(obj2), obj1, obj2)
+        maintained in a heap of (idx, dist, seq(obj1), seq(obj2), obj1, obj2)
         tuples. It ensures quick access to the smallest element. Note that
         since comparison operators, e.g., __lt__, are disabled for
-        LTComponent, id(obj) has to appear before obj in element tuples.
+        LTComponent, a sequence number has to appear before obj in element
+        tuples. The sequence number is the position of a textbox in `boxes`
+        resp. the creation order of a group, so that pairs at exactly the same
+        distance are merged in an order that depends on the page only (and
+        not on memory addresses, as id(obj) would).
 
         :param laparams: LAParams object.
         :param boxes: All textbox objects to be grouped.
@@ -866,12 +870,18 @@ class LTLayoutContainer(LTContainer[LTComponent]):
             objs = set(plane.find((x0, y0, x1, y1)))
             return objs.difference((obj1, obj2))
 
+        seq: Dict[ElementT, int] = {}
+        for box in boxes:
+            seq.setdefault(box, len(seq))
+
         dists: List[Tuple[bool, float, int, int, ElementT, ElementT]] = []
         for i in range(len(boxes)):
             box1 = boxes[i]
             for j in range(i + 1, len(boxes)):
                 box2 = boxes[j]
-                dists.append((False, dist(box1, box2), id(box1), id(box2), box1, box2))
+                dists.append(
+                    (False, dist(box1, box2), seq[box1], seq[box2], box1, box2)
+                )
         heapq.heapify(dists)
 
         plane.extend(boxes)
@@ -893,11 +903,19 @@ class LTLayoutContainer(LTContainer[LTComponent]):
                 plane.remove(obj1)
                 plane.remove(obj2)
                 done.update([id1, id2])
+                seq[group] = len(seq)
 
                 for other in plane:
                     heapq.heappush(
                         dists,
-                        (False, dist(group, other), id(group), id(other), group, other),
+                        (
+                            False,
+                            dist(group, other),
+                            seq[group],
+                            seq[other],
+                            group,
+                            other,
+                        ),
                     )
                 plane.add(group)
         # By now only groups are in the plane
